@@ -15,5 +15,8 @@ if not ok:
 ok, o = vlib.build_harness()
 if not ok:
     print(o[-2000:]); sys.exit(1)
+rc, o, _ = vlib.sh(["go", "build", "-o", os.path.join(vlib.BUILD, "lockset"), "."], cwd=os.path.join(vlib.ROOT, "lockset"), env=vlib.GOENV, timeout=900)
+if rc != 0:
+    print(o[-2000:]); sys.exit(1)
 print("setup ok")
 PY
